@@ -81,6 +81,43 @@ PROPS = {
         'trusted': ["doublestar v4.8.1 modelled (not verified) for the pattern alphabet; path.Clean modelled on segment lists"],
         'assumptions': ["patterns over {literal, *, **, /}"],
     },
+    'C15': {
+        'proofs': ['Ww.Proofs.C15'],
+        'gen_sections': ['Routes', 'pkg/router/router.go', 'pkg/router/paths/paths.go'],
+        'drivers': [{'name': 'c15'}, {'name': 'hist'}],
+        'reasons': ['C15.'],
+        'class_fields': _merge(HIST_CLASS, {'route': ['sso', 'idporten', 'method', 'impl', 'nocache'], 'guard': ['ep', 'method', 'mode', 'dest', 'status'], 'errpage': ['ep', 'status']}),
+        'nontrivial': HIST_NT,
+        'rule': "c15 driver: real router.New over a recording Source: (method x request target) over 5 prefix sets x SSO-server on/off x idporten on/off, targets = every endpoint tail incl. trailing slash, "
+                "case change, percent-escapes, dot segments, doubled slashes, look-alike prefixes; non-navigation guard on the 4 interactive endpoints x 9 Sec-Fetch combinations; error page with hostile text. "
+                "hist driver scans every owned-endpoint response for the session's tokens. distinct = (config, method, handler reached/404/405, no-cache).",
+        'level_text': "Proof over the route table regenerated from router.go on each run: the catch-all proxy route exists once, at top level; every path in a configured <prefix>/oauth2 subtree routes to a handler, "
+                      "404 or 405 and never to the proxy (for every method, path, prefix list, configuration); NoCache wraps every response in the subtree incl. 404/405; the four interactive endpoints are wrapped by "
+                      "the non-navigation guard, which answers 401 for every Fetch-metadata combination that is not a top-level navigation. chi's matching is modelled and tied against the real router; token "
+                      "absence in responses and HTML escaping are checked on the implementation (monitor), not proved.",
+        'level_note': "Trusted: Lean kernel; route-table extractor; chi v5 mount/static matching and unknown-method 405 (modelled, differential); html/template escaping (tested with hostile strings); "
+                      "RFC 3986 reading of 'under the subtree' (split on literal '/'; %2F is data). Non-standard methods (e.g. PROPFIND) are answered by chi's top-level 405 without the group middlewares: outside the quantifier, noted in DESIGN.",
+        'technique': 'Lean 4: decide over the regenerated route table + routing theorem; differential routing against router.New',
+        'trusted': ["chi v5 routing contract (Appendix C)", "html/template contextual escaping"],
+        'assumptions': ["chi routes on RawPath when set, else Path"],
+    },
+    'C16': {
+        'proofs': ['Ww.Proofs.C16'],
+        'gen_sections': ['Routes', 'Facts', 'pkg/router/router.go'],
+        'drivers': [{'name': 'c16'}, {'name': 'hist'}],
+        'reasons': ['C16.'],
+        'class_fields': _merge(HIST_CLASS, {'cors': ['dom', 'corsep', 'preflight', 'acac', 'status'], 'proxycmds': ['op', 'status', 'cmds']}),
+        'nontrivial': HIST_NT,
+        'rule': "c16 driver: Origin values (8 schemes x 22 host shapes incl. look-alikes, suffix/prefix confusions, case, ports, userinfo) x 4 SSO-domain spellings x 7 endpoints x simple/preflight against the real "
+                "SSO-server router; an SSO proxy and server on one miniredis with every command attributed by client name while the proxy serves 13 operations over shifted clocks. hist driver: sso-proxy and sso-server histories.",
+        'level_text': "Proof: for EVERY origin string and domain spelling, corsAllows implies the lower-cased origin is https:// followed by the SSO domain or something ending in '.'+domain (string theorem); "
+                      "structural theorems (decide over regenerated facts): the SSOProxy type holds only a session Reader and its methods call no mutating/provider operation, the server wildcard only redirects; "
+                      "behavioural theorem on the handler model: a proxied request in proxy mode never contacts the provider nor changes the store. rs/cors matching is modelled and tied; the dynamic command log ties the rest.",
+        'level_note': "Trusted: Lean kernel; rs/cors v1.11.1 wildcard rule (modelled, differential); browsers send Origin as scheme://host[:port] (values with / ? # @ are outside the quantifier); static call facts are by name (over-approximate).",
+        'technique': 'Lean 4 string theorem for the CORS rule + decide over regenerated structural facts + differential/command-log runs',
+        'trusted': ["rs/cors wildcard contract", "H-BROWSER (Origin syntax)"],
+        'assumptions': ["H-BROWSER"],
+    },
     'C08': {
         'proofs': ['Ww.Proofs.C08'],
         'gen_sections': ['Meta', 'Consts', 'pkg/session/data.go'],
